@@ -254,6 +254,16 @@ fn run_comp<P>(problem: &P, comp: &dyn Component<P>, stack: &[Vec<P::Encoding>],
 where
     P: Instrumented,
 {
+    run_comp_under(problem, comp, None, stack, seed, evaluated)
+}
+
+/// With `twin`: the twin (same operator, other parameter values) is initialised in the caller's state and
+/// `comp` is then initialised and executed inside a scope opened over it - what `Scope` does when the same
+/// operator is used at two levels of a configuration. `comp` must behave according to its own parameters.
+fn run_comp_under<P>(problem: &P, comp: &dyn Component<P>, twin: Option<&dyn Component<P>>, stack: &[Vec<P::Encoding>], seed: u64, evaluated: bool) -> Run<P::Encoding>
+where
+    P: Instrumented,
+{
     let mut st = State::<P>::new();
     let mut pops = Populations::<P>::new();
     for p in stack {
@@ -266,9 +276,20 @@ where
     }
     st.insert(pops);
     st.insert(Random::new(seed));
-    let result = catch(|| {
-        comp.init(problem, &mut st).map_err(|e| format!("init: {e:#}"))?;
-        comp.execute(problem, &mut st).map_err(|e| format!("{e:#}"))
+    let result = catch(|| match twin {
+        None => {
+            comp.init(problem, &mut st).map_err(|e| format!("init: {e:#}"))?;
+            comp.execute(problem, &mut st).map_err(|e| format!("{e:#}"))
+        }
+        Some(twin) => {
+            twin.init(problem, &mut st).map_err(|e| format!("init of the outer twin: {e:#}"))?;
+            st.with_inner_state(|inner| {
+                comp.init(problem, inner)?;
+                comp.execute(problem, inner)
+            })
+            .map(|_| ())
+            .map_err(|e| format!("inside the scope: {e:#}"))
+        }
     });
     let pops = st.populations();
     let mut out = Vec::new();
@@ -297,18 +318,25 @@ fn real_components(rep: &Reporter, rng: &mut SplitMix64, n: usize) {
         let pop: Vec<Vec<f64>> = (0..size).map(|_| (0..dim).map(|_| rng.f64_in(-5.0, 5.0)).collect()).collect();
         let rate = *rng.pick(&[0.0, 0.3, 1.0]);
         let seed = rng.next_u64();
-        let muts: Vec<(&str, Box<dyn Component<Real>>)> = vec![
-            ("NormalMutation", mutation::NormalMutation::new(0.5, rate)),
-            ("UniformMutation", mutation::UniformMutation::new(0.5, rate)),
-            ("PartialRandomSpread", mutation::PartialRandomSpread::new(rate)),
-            ("ScrambleMutation", mutation::ScrambleMutation::new(rate)),
+        // every other case: the operator runs inside a scope opened over a state in which the same operator
+        // with the opposite rate (and another strength) has been initialised
+        let other = if rate == 0.0 { 1.0 } else { 0.0 };
+        let under_twin = rng.bool();
+        let muts: Vec<(&str, Box<dyn Component<Real>>, Box<dyn Component<Real>>)> = vec![
+            ("NormalMutation", mutation::NormalMutation::new(0.5, rate), mutation::NormalMutation::new(3.0, other)),
+            ("UniformMutation", mutation::UniformMutation::new(0.5, rate), mutation::UniformMutation::new(3.0, other)),
+            ("PartialRandomSpread", mutation::PartialRandomSpread::new(rate), mutation::PartialRandomSpread::new(other)),
+            ("ScrambleMutation", mutation::ScrambleMutation::new(rate), mutation::ScrambleMutation::new(other)),
         ];
-        for (name, comp) in muts {
+        for (name, comp, twin) in muts {
             rep.case();
-            rep.nontrivial(hash_of(&(name, dim, size, rate.to_bits())));
-            let r = run_comp(&problem, comp.as_ref(), &[pop.clone()], seed, true);
+            rep.nontrivial(hash_of(&(name, dim, size, rate.to_bits(), under_twin)));
+            let r = run_comp_under(&problem, comp.as_ref(), under_twin.then_some(twin.as_ref()), &[pop.clone()], seed, true);
             rep.distinct("operator_outcomes", hash_of(&(name, outcome_class(&r))));
-            let ctx = || json!({"operator": name, "rate": rate, "dimension": dim, "population_size": size, "seed": seed});
+            if under_twin {
+                rep.count("runs_inside_a_scope_over_a_twin", 1);
+            }
+            let ctx = || json!({"operator": name, "rate": rate, "dimension": dim, "population_size": size, "seed": seed, "inside_a_scope_over_the_same_operator_with_rate": under_twin.then_some(other)});
             if outcome_class(&r) != "ok" {
                 rep.violation(&format!("{name}:{}-on-valid-population", outcome_class(&r)), json!({"case": ctx(), "result": format!("{:?}", r.result)}));
                 continue;
@@ -530,17 +558,22 @@ fn bit_components(rep: &Reporter, rng: &mut SplitMix64, n: usize) {
         let rate = *rng.pick(&[0.0, 0.3, 1.0]);
         let p = *rng.pick(&[0.0, 0.5, 1.0]);
         let seed = rng.next_u64();
-        let ops: Vec<(&str, Box<dyn Component<Bits>>)> = vec![
-            ("BitFlipMutation", mutation::BitFlipMutation::new(rate)),
-            ("PartialRandomBitstring", mutation::PartialRandomBitstring::new(p, rate)),
-            ("ScrambleMutation", mutation::ScrambleMutation::new(rate)),
+        let other = if rate == 0.0 { 1.0 } else { 0.0 };
+        let under_twin = rng.bool();
+        let ops: Vec<(&str, Box<dyn Component<Bits>>, Box<dyn Component<Bits>>)> = vec![
+            ("BitFlipMutation", mutation::BitFlipMutation::new(rate), mutation::BitFlipMutation::new(other)),
+            ("PartialRandomBitstring", mutation::PartialRandomBitstring::new(p, rate), mutation::PartialRandomBitstring::new(1.0 - p, other)),
+            ("ScrambleMutation", mutation::ScrambleMutation::new(rate), mutation::ScrambleMutation::new(other)),
         ];
-        for (name, comp) in ops {
+        for (name, comp, twin) in ops {
             rep.case();
-            rep.nontrivial(hash_of(&(name, dim, size, rate.to_bits(), p.to_bits())));
-            let r = run_comp(&problem, comp.as_ref(), &[pop.clone()], seed, true);
+            rep.nontrivial(hash_of(&(name, dim, size, rate.to_bits(), p.to_bits(), under_twin)));
+            let r = run_comp_under(&problem, comp.as_ref(), under_twin.then_some(twin.as_ref()), &[pop.clone()], seed, true);
             rep.distinct("operator_outcomes", hash_of(&(name, outcome_class(&r))));
-            let ctx = || json!({"operator": name, "rate": rate, "p": p, "dimension": dim, "population_size": size, "seed": seed});
+            if under_twin {
+                rep.count("runs_inside_a_scope_over_a_twin", 1);
+            }
+            let ctx = || json!({"operator": name, "rate": rate, "p": p, "dimension": dim, "population_size": size, "seed": seed, "inside_a_scope_over_the_same_operator_with_rate": under_twin.then_some(other)});
             if outcome_class(&r) != "ok" {
                 rep.violation(&format!("{name}:{}-on-valid-population", outcome_class(&r)), json!({"case": ctx(), "result": format!("{:?}", r.result)}));
                 continue;
